@@ -93,3 +93,58 @@ package flows
 //@   loop 0 invariant ref(bridgeExits) < heapTop && forall(k, 0, rangeindex + 1, bridgeExits[k] < heapTop && bridgeExits[k].TokenInfo < heapTop)
 //@   loop 0 invariant forall(k, 0, rangeindex + 1, bridgeExits[k] != nil && fresh(bridgeExits[k]) && bridgeExits[k].TokenInfo != nil && fresh(bridgeExits[k].TokenInfo) && bridgeExits[k].LeafType == bridges[k].LeafType && bridgeExits[k].TokenInfo.OriginNetwork == bridges[k].OriginNetwork && bridgeExits[k].TokenInfo.OriginTokenAddress == bridges[k].OriginAddress && bridgeExits[k].DestinationNetwork == bridges[k].DestinationNetwork && bridgeExits[k].DestinationAddress == bridges[k].DestinationAddress && bridgeExits[k].Amount == bridges[k].Amount)
 //@   loop 0 invariant forall(k, 0, rangeindex + 1, (len(bridges[k].Metadata) == 0 ==> bridgeExits[k].Metadata == nil) && (len(bridges[k].Metadata) > 0 ==> len(bridgeExits[k].Metadata) == 32 && off(bridgeExits[k].Metadata) == 0 && seq(bridgeExits[k].Metadata) == hb(keccak(catB(emptyB(), bytesOf(seq(bridges[k].Metadata), len(bridges[k].Metadata)))))))
+
+// ---- claim -> imported bridge exit (C03, C09, C19): fields preserved, metadata hashed, global index decoded
+//@ func (f *baseFlow) ConvertClaimToImportedBridgeExit
+//@   props C03 C09 C19
+//@   requires claim.GlobalIndex != nil
+//@   ensures[ok] result1 == nil && result0 != nil && result0.BridgeExit != nil && result0.BridgeExit.TokenInfo != nil && result0.GlobalIndex != nil
+//@   ensures[fresh] fresh(result0) && fresh(result0.BridgeExit) && fresh(result0.BridgeExit.TokenInfo) && fresh(result0.GlobalIndex) && result0.ClaimData == nil
+//@   ensures[fields] result0.BridgeExit.LeafType == ite(claim.IsMessage, 1, 0) && result0.BridgeExit.TokenInfo.OriginNetwork == claim.OriginNetwork && result0.BridgeExit.TokenInfo.OriginTokenAddress == claim.OriginAddress && result0.BridgeExit.DestinationNetwork == claim.DestinationNetwork && result0.BridgeExit.DestinationAddress == claim.DestinationAddress && result0.BridgeExit.Amount == claim.Amount
+//@   ensures[metadata-hashed] (len(claim.Metadata) == 0 ==> result0.BridgeExit.Metadata == nil) && (len(claim.Metadata) > 0 ==> len(result0.BridgeExit.Metadata) == 32 && seq(result0.BridgeExit.Metadata) == hb(keccak(catB(emptyB(), bytesOf(seq(claim.Metadata), len(claim.Metadata))))))
+//@   ensures[global-index] absInt(bigval(claim.GlobalIndex)) < 4722366482869645213696 ==> result0.GlobalIndex.MainnetFlag == (absInt(bigval(claim.GlobalIndex)) >= 18446744073709551616) && result0.GlobalIndex.RollupIndex == (absInt(bigval(claim.GlobalIndex)) / 4294967296) % 4294967296 && result0.GlobalIndex.LeafIndex == absInt(bigval(claim.GlobalIndex)) % 4294967296
+
+// ---- the new local exit root of a certificate (C03): the synced exit-tree root at the deposit count of its last bridge
+//@ ghost var exitRootAt map[int]Hash
+//@ interface github.com/agglayer/aggkit/aggsender/types.BridgeQuerier.GetExitRootByIndex (self, ctx, index)
+//@   modifies nothing
+//@   ensures result1 == nil ==> result0 == exitRootAt[index]
+//@ interface github.com/agglayer/aggkit/aggsender/types.BridgeQuerier.OriginNetwork (self)
+//@   modifies nothing
+
+//@ func (f *baseFlow) getNewLocalExitRoot
+//@   props C03
+//@   requires f != nil && f.l2BridgeQuerier != nil && certParams != nil
+//@   ensures[no-bridges-keeps-root] len(certParams.Bridges) == 0 ==> result1 == nil && result0 == previousLER
+//@   ensures[root-after-last-bridge] (len(certParams.Bridges) > 0 && result1 == nil) ==> result0 == exitRootAt[certParams.Bridges[len(certParams.Bridges) - 1].DepositCount]
+
+// ---- imported bridge exits of a certificate (C03, C09): one per claim, in order; the L1 info leaf and the proof
+// to the chosen L1 info root come from the L1 info tree (ghost functions of the global exit root), the exit's own
+// proofs and exit roots from the claim.
+//@ spec fn gerLeafIndex(ger Hash) int
+//@ spec fn gerLeafTimestamp(ger Hash) int
+//@ spec fn gerLeafPrevBlockHash(ger Hash) Hash
+//@ spec fn gerProofTo(ger Hash, root Hash) []Hash
+
+//@ interface github.com/agglayer/aggkit/aggsender/types.L1InfoTreeDataQuerier.GetProofForGER (self, ctx, ger, rootFromWhichToProve)
+//@   modifies nothing
+//@   ensures result2 != nil ==> result0 == nil
+//@   ensures result2 == nil ==> result0 != nil && result0.GlobalExitRoot == ger && result0.L1InfoTreeIndex == gerLeafIndex(ger) && result0.Timestamp == gerLeafTimestamp(ger) && result0.PreviousBlockHash == gerLeafPrevBlockHash(ger) && result1 == gerProofTo(ger, rootFromWhichToProve)
+
+//@ func (f *baseFlow) getImportedBridgeExits
+//@   props C03 C09
+//@   requires f != nil && f.log != nil && f.l1InfoTreeDataQuerier != nil
+//@   requires forall(k, 0, len(claims), claims[k].GlobalIndex != nil && claims[k].Amount != nil && 0 <= bigval(claims[k].Amount) && bigval(claims[k].Amount) < 115792089237316195423570985008687907853269984665640564039457584007913129639936)
+//@   modifies nothing
+//@   ensures[error-means-nothing] result1 != nil ==> result0 == nil
+//@   ensures[one-per-claim] result1 == nil ==> len(result0) == len(claims)
+//@   ensures[same-order-fields] result1 == nil ==> forall(k, 0, len(claims), result0[k] != nil && result0[k].BridgeExit != nil && result0[k].BridgeExit.TokenInfo != nil && result0[k].GlobalIndex != nil && result0[k].BridgeExit.LeafType == ite(claims[k].IsMessage, 1, 0) && result0[k].BridgeExit.TokenInfo.OriginNetwork == claims[k].OriginNetwork && result0[k].BridgeExit.TokenInfo.OriginTokenAddress == claims[k].OriginAddress && result0[k].BridgeExit.DestinationNetwork == claims[k].DestinationNetwork && result0[k].BridgeExit.DestinationAddress == claims[k].DestinationAddress && result0[k].BridgeExit.Amount == claims[k].Amount)
+//@   ensures[global-index] result1 == nil ==> forall(k, 0, len(claims), absInt(bigval(claims[k].GlobalIndex)) < 4722366482869645213696 ==> result0[k].GlobalIndex.MainnetFlag == (absInt(bigval(claims[k].GlobalIndex)) >= 18446744073709551616) && result0[k].GlobalIndex.RollupIndex == (absInt(bigval(claims[k].GlobalIndex)) / 4294967296) % 4294967296 && result0[k].GlobalIndex.LeafIndex == absInt(bigval(claims[k].GlobalIndex)) % 4294967296)
+//@   ensures[mainnet-claim] result1 == nil ==> forall(k, 0, len(claims), result0[k].GlobalIndex.MainnetFlag ==> typeIs(result0[k].ClaimData, *agglayertypes.ClaimFromMainnnet) && cast(result0[k].ClaimData, *agglayertypes.ClaimFromMainnnet).L1Leaf != nil && cast(result0[k].ClaimData, *agglayertypes.ClaimFromMainnnet).L1Leaf.Inner != nil && cast(result0[k].ClaimData, *agglayertypes.ClaimFromMainnnet).ProofLeafMER != nil && cast(result0[k].ClaimData, *agglayertypes.ClaimFromMainnnet).ProofGERToL1Root != nil && cast(result0[k].ClaimData, *agglayertypes.ClaimFromMainnnet).L1Leaf.L1InfoTreeIndex == gerLeafIndex(claims[k].GlobalExitRoot) && cast(result0[k].ClaimData, *agglayertypes.ClaimFromMainnnet).L1Leaf.MainnetExitRoot == claims[k].MainnetExitRoot && cast(result0[k].ClaimData, *agglayertypes.ClaimFromMainnnet).L1Leaf.RollupExitRoot == claims[k].RollupExitRoot && cast(result0[k].ClaimData, *agglayertypes.ClaimFromMainnnet).L1Leaf.Inner.GlobalExitRoot == claims[k].GlobalExitRoot && cast(result0[k].ClaimData, *agglayertypes.ClaimFromMainnnet).L1Leaf.Inner.Timestamp == gerLeafTimestamp(claims[k].GlobalExitRoot) && cast(result0[k].ClaimData, *agglayertypes.ClaimFromMainnnet).L1Leaf.Inner.BlockHash == gerLeafPrevBlockHash(claims[k].GlobalExitRoot) && cast(result0[k].ClaimData, *agglayertypes.ClaimFromMainnnet).ProofLeafMER.Root == claims[k].MainnetExitRoot && cast(result0[k].ClaimData, *agglayertypes.ClaimFromMainnnet).ProofLeafMER.Proof == claims[k].ProofLocalExitRoot && cast(result0[k].ClaimData, *agglayertypes.ClaimFromMainnnet).ProofGERToL1Root.Root == rootFromWhichToProve && cast(result0[k].ClaimData, *agglayertypes.ClaimFromMainnnet).ProofGERToL1Root.Proof == gerProofTo(claims[k].GlobalExitRoot, rootFromWhichToProve))
+//@   ensures[rollup-claim] result1 == nil ==> forall(k, 0, len(claims), !result0[k].GlobalIndex.MainnetFlag ==> typeIs(result0[k].ClaimData, *agglayertypes.ClaimFromRollup) && cast(result0[k].ClaimData, *agglayertypes.ClaimFromRollup).L1Leaf != nil && cast(result0[k].ClaimData, *agglayertypes.ClaimFromRollup).L1Leaf.Inner != nil && cast(result0[k].ClaimData, *agglayertypes.ClaimFromRollup).ProofLeafLER != nil && cast(result0[k].ClaimData, *agglayertypes.ClaimFromRollup).ProofLERToRER != nil && cast(result0[k].ClaimData, *agglayertypes.ClaimFromRollup).ProofGERToL1Root != nil && cast(result0[k].ClaimData, *agglayertypes.ClaimFromRollup).L1Leaf.L1InfoTreeIndex == gerLeafIndex(claims[k].GlobalExitRoot) && cast(result0[k].ClaimData, *agglayertypes.ClaimFromRollup).L1Leaf.MainnetExitRoot == claims[k].MainnetExitRoot && cast(result0[k].ClaimData, *agglayertypes.ClaimFromRollup).L1Leaf.RollupExitRoot == claims[k].RollupExitRoot && cast(result0[k].ClaimData, *agglayertypes.ClaimFromRollup).L1Leaf.Inner.GlobalExitRoot == claims[k].GlobalExitRoot && cast(result0[k].ClaimData, *agglayertypes.ClaimFromRollup).L1Leaf.Inner.Timestamp == gerLeafTimestamp(claims[k].GlobalExitRoot) && cast(result0[k].ClaimData, *agglayertypes.ClaimFromRollup).L1Leaf.Inner.BlockHash == gerLeafPrevBlockHash(claims[k].GlobalExitRoot) && cast(result0[k].ClaimData, *agglayertypes.ClaimFromRollup).ProofLeafLER.Proof == claims[k].ProofLocalExitRoot && cast(result0[k].ClaimData, *agglayertypes.ClaimFromRollup).ProofLERToRER.Root == claims[k].RollupExitRoot && cast(result0[k].ClaimData, *agglayertypes.ClaimFromRollup).ProofLERToRER.Proof == claims[k].ProofRollupExitRoot && cast(result0[k].ClaimData, *agglayertypes.ClaimFromRollup).ProofGERToL1Root.Root == rootFromWhichToProve && cast(result0[k].ClaimData, *agglayertypes.ClaimFromRollup).ProofGERToL1Root.Proof == gerProofTo(claims[k].GlobalExitRoot, rootFromWhichToProve))
+//@   loop 0 invariant 0 <= rangeindex + 1 && rangeindex + 1 <= len(claims) && len(importedBridgeExits) == rangeindex + 1 && off(importedBridgeExits) == 0 && ref(importedBridgeExits) < heapTop && f.log != nil && f.l1InfoTreeDataQuerier != nil
+//@   loop 0 invariant forall(k, 0, rangeindex + 1, importedBridgeExits[k] != nil && fresh(importedBridgeExits[k]) && importedBridgeExits[k] < heapTop && fresh(importedBridgeExits[k].BridgeExit) && importedBridgeExits[k].BridgeExit < heapTop && fresh(importedBridgeExits[k].BridgeExit.TokenInfo) && importedBridgeExits[k].BridgeExit.TokenInfo < heapTop && fresh(importedBridgeExits[k].GlobalIndex) && importedBridgeExits[k].GlobalIndex < heapTop && fresh(importedBridgeExits[k].ClaimData) && importedBridgeExits[k].ClaimData < heapTop)
+//@   loop 0 invariant forall(k, 0, rangeindex + 1, importedBridgeExits[k] != nil && importedBridgeExits[k].BridgeExit != nil && importedBridgeExits[k].BridgeExit.TokenInfo != nil && importedBridgeExits[k].GlobalIndex != nil && importedBridgeExits[k].BridgeExit.LeafType == ite(claims[k].IsMessage, 1, 0) && importedBridgeExits[k].BridgeExit.TokenInfo.OriginNetwork == claims[k].OriginNetwork && importedBridgeExits[k].BridgeExit.TokenInfo.OriginTokenAddress == claims[k].OriginAddress && importedBridgeExits[k].BridgeExit.DestinationNetwork == claims[k].DestinationNetwork && importedBridgeExits[k].BridgeExit.DestinationAddress == claims[k].DestinationAddress && importedBridgeExits[k].BridgeExit.Amount == claims[k].Amount)
+//@   loop 0 invariant forall(k, 0, rangeindex + 1, absInt(bigval(claims[k].GlobalIndex)) < 4722366482869645213696 ==> importedBridgeExits[k].GlobalIndex.MainnetFlag == (absInt(bigval(claims[k].GlobalIndex)) >= 18446744073709551616) && importedBridgeExits[k].GlobalIndex.RollupIndex == (absInt(bigval(claims[k].GlobalIndex)) / 4294967296) % 4294967296 && importedBridgeExits[k].GlobalIndex.LeafIndex == absInt(bigval(claims[k].GlobalIndex)) % 4294967296)
+//@   loop 0 invariant forall(k, 0, rangeindex + 1, importedBridgeExits[k].GlobalIndex.MainnetFlag ==> typeIs(importedBridgeExits[k].ClaimData, *agglayertypes.ClaimFromMainnnet) && cast(importedBridgeExits[k].ClaimData, *agglayertypes.ClaimFromMainnnet).L1Leaf != nil && cast(importedBridgeExits[k].ClaimData, *agglayertypes.ClaimFromMainnnet).L1Leaf.Inner != nil && cast(importedBridgeExits[k].ClaimData, *agglayertypes.ClaimFromMainnnet).ProofLeafMER != nil && cast(importedBridgeExits[k].ClaimData, *agglayertypes.ClaimFromMainnnet).ProofGERToL1Root != nil && cast(importedBridgeExits[k].ClaimData, *agglayertypes.ClaimFromMainnnet).L1Leaf.L1InfoTreeIndex == gerLeafIndex(claims[k].GlobalExitRoot) && cast(importedBridgeExits[k].ClaimData, *agglayertypes.ClaimFromMainnnet).L1Leaf.MainnetExitRoot == claims[k].MainnetExitRoot && cast(importedBridgeExits[k].ClaimData, *agglayertypes.ClaimFromMainnnet).L1Leaf.RollupExitRoot == claims[k].RollupExitRoot && cast(importedBridgeExits[k].ClaimData, *agglayertypes.ClaimFromMainnnet).L1Leaf.Inner.GlobalExitRoot == claims[k].GlobalExitRoot && cast(importedBridgeExits[k].ClaimData, *agglayertypes.ClaimFromMainnnet).L1Leaf.Inner.Timestamp == gerLeafTimestamp(claims[k].GlobalExitRoot) && cast(importedBridgeExits[k].ClaimData, *agglayertypes.ClaimFromMainnnet).L1Leaf.Inner.BlockHash == gerLeafPrevBlockHash(claims[k].GlobalExitRoot) && cast(importedBridgeExits[k].ClaimData, *agglayertypes.ClaimFromMainnnet).ProofLeafMER.Root == claims[k].MainnetExitRoot && cast(importedBridgeExits[k].ClaimData, *agglayertypes.ClaimFromMainnnet).ProofLeafMER.Proof == claims[k].ProofLocalExitRoot && cast(importedBridgeExits[k].ClaimData, *agglayertypes.ClaimFromMainnnet).ProofGERToL1Root.Root == rootFromWhichToProve && cast(importedBridgeExits[k].ClaimData, *agglayertypes.ClaimFromMainnnet).ProofGERToL1Root.Proof == gerProofTo(claims[k].GlobalExitRoot, rootFromWhichToProve))
+//@   loop 0 invariant forall(k, 0, rangeindex + 1, !importedBridgeExits[k].GlobalIndex.MainnetFlag ==> typeIs(importedBridgeExits[k].ClaimData, *agglayertypes.ClaimFromRollup) && cast(importedBridgeExits[k].ClaimData, *agglayertypes.ClaimFromRollup).L1Leaf != nil && cast(importedBridgeExits[k].ClaimData, *agglayertypes.ClaimFromRollup).L1Leaf.Inner != nil && cast(importedBridgeExits[k].ClaimData, *agglayertypes.ClaimFromRollup).ProofLeafLER != nil && cast(importedBridgeExits[k].ClaimData, *agglayertypes.ClaimFromRollup).ProofLERToRER != nil && cast(importedBridgeExits[k].ClaimData, *agglayertypes.ClaimFromRollup).ProofGERToL1Root != nil && cast(importedBridgeExits[k].ClaimData, *agglayertypes.ClaimFromRollup).L1Leaf.L1InfoTreeIndex == gerLeafIndex(claims[k].GlobalExitRoot) && cast(importedBridgeExits[k].ClaimData, *agglayertypes.ClaimFromRollup).L1Leaf.MainnetExitRoot == claims[k].MainnetExitRoot && cast(importedBridgeExits[k].ClaimData, *agglayertypes.ClaimFromRollup).L1Leaf.RollupExitRoot == claims[k].RollupExitRoot && cast(importedBridgeExits[k].ClaimData, *agglayertypes.ClaimFromRollup).L1Leaf.Inner.GlobalExitRoot == claims[k].GlobalExitRoot && cast(importedBridgeExits[k].ClaimData, *agglayertypes.ClaimFromRollup).L1Leaf.Inner.Timestamp == gerLeafTimestamp(claims[k].GlobalExitRoot) && cast(importedBridgeExits[k].ClaimData, *agglayertypes.ClaimFromRollup).L1Leaf.Inner.BlockHash == gerLeafPrevBlockHash(claims[k].GlobalExitRoot) && cast(importedBridgeExits[k].ClaimData, *agglayertypes.ClaimFromRollup).ProofLeafLER.Proof == claims[k].ProofLocalExitRoot && cast(importedBridgeExits[k].ClaimData, *agglayertypes.ClaimFromRollup).ProofLERToRER.Root == claims[k].RollupExitRoot && cast(importedBridgeExits[k].ClaimData, *agglayertypes.ClaimFromRollup).ProofLERToRER.Proof == claims[k].ProofRollupExitRoot && cast(importedBridgeExits[k].ClaimData, *agglayertypes.ClaimFromRollup).ProofGERToL1Root.Root == rootFromWhichToProve && cast(importedBridgeExits[k].ClaimData, *agglayertypes.ClaimFromRollup).ProofGERToL1Root.Proof == gerProofTo(claims[k].GlobalExitRoot, rootFromWhichToProve))
